@@ -518,6 +518,7 @@ pub fn prop() -> Prop {
         ],
         post: None,
         watchdog_s: 60,
+        hang_is_violation: false,
         shrink_iters: 3000,
     }
 }
